@@ -268,9 +268,29 @@ DefsLabels(tag, D2, pd) ==
 \* handles (C13): rows <<id, kind, state, path, steps, name>>; a handle is dead,
 \* or it is the current object at the place it reports and that place exists
 HandleLabels(tag, D2, rows) ==
-    Lbl(\A h \in rows : h[3] \in {"dead", "current"}
+    LET stat == {h \in rows : Len(h[5]) = 0 \/ h[3] = "dead"}
+        dyn  == rows \ stat
+        Denotes(h) == IF h[2] = "space" THEN CtxExists(D2, <<h[4], h[5]>>)
+                      ELSE NodeExists(D2, <<h[4], h[5], h[6], <<>>>>) IN
+    Lbl(\A h \in stat : h[3] \in {"dead", "current"}
             \/ ~PrintT(<<"INFO", tag, "handle", h>>), "C13.DeletedHandlesDead")
-    \cup Lbl(\A h \in rows : h[3] = "current" =>
-                 IF h[2] = "space" THEN CtxExists(D2, <<h[4], h[5]>>)
-                 ELSE NodeExists(D2, <<h[4], h[5], h[6], <<>>>>), "C13.LiveHandlesDenote")
+    \cup Lbl(\A h \in stat : h[3] = "current" => Denotes(h), "C13.LiveHandlesDenote")
+    \* C07: a handle to (something inside) an ItemSpace obtained earlier is dead or denotes
+    \* the instance that currently exists for its arguments
+    \cup Lbl(\A h \in dyn : (h[3] = "current" /\ Denotes(h))
+            \/ ~PrintT(<<"INFO", tag, "dynamic handle", h>>), "C07.HandleDeadOrCurrent")
+
+\* items = rows <<path, steps, handle id>> of every ItemSpace that exists; a get_item
+\* event returns the instance for the bound arguments (C07: equal binding, same instance)
+ItemLabels(tag, DD, D2, e, items) ==
+    Lbl(\A a \in items : \A b \in items : (a[1] = b[1] /\ a[2] = b[2]) => a[3] = b[3],
+        "C07.SameArgsSameInstance")
+    \cup Lbl(\A a \in items : CtxExists(D2, <<a[1], a[2]>>), "C07.InstanceOfExistingBase")
+    \cup (IF e.op = "get_item" /\ e.res = "ok"
+          THEN LET b == BaseOf(DD, e.s, e.st)
+                   key == Bind(DD.flib[DD.pf[b]].ps, e.key)
+                   want == <<e.s, Append(e.st, <<"i", "", key>>)>> IN
+               Lbl(\E a \in items : a[1] = want[1] /\ a[2] = want[2] /\ a[3] = e.hid,
+                   "C07.SameArgsSameInstance")
+          ELSE {})
 =============================================================================
